@@ -8,6 +8,7 @@ KNOWN_EXCLUSION_FLAGS = []  # names of `pub const X: bool` switches in .work/gen
 
 MODULES = {
     "ext.c08": {"crate": "ext", "modpath": "c08_resolver", "sympath": "sym", "pbfile": "ext.rs"},
+    "ext.c19": {"crate": "ext", "modpath": "c19_nodes", "sympath": "sym", "pbfile": "ext.rs"},
     # in-crate harness modules (child modules of the module they inspect, via the cfg(kani) hooks)
     "parser.scanner": {"crate": "parser", "modpath": "scanner::verif_harness", "sympath": "scanner::verif_harness::sym", "pbfile": "scanner.rs"},
     "parser.input_str": {"crate": "parser", "modpath": "input::str::verif_harness", "sympath": "input::str::verif_harness::sym", "pbfile": "input_str.rs"},
@@ -41,6 +42,11 @@ NOT_APPLICABLE = {
     "C03": "needs an oracle at the level 'text of a structured stream -> event tree' over inputs long enough to nest (>= 8-20 chars through "
            "scanner and parser together); measured: Kani/CBMC does not finish symbolic execution of the scanner+parser pipeline even for 3 symbolic "
            "or 4 concrete characters (DESIGN.md section 1), and no unit-level decomposition has a specification-level oracle. Not decided by another technique.",
+    "C05": "scan_block_scalar and its helpers build heap strings (String/Vec pointer value-sets dominate CBMC's symbolic execution): neither the real function "
+           "under Kani nor a container-shim build of the scanner finishes for 4 symbolic characters (DESIGN.md section 1); no deciding harness could be built, "
+           "and no other technique is substituted. Only panic-freedom of the indentation skipping is checked, under C01.",
+    "C07": "the loader's on_event inserts into hashlink::LinkedHashMap (hashbrown + foldhash): 7 concrete events did not finish at 860 s / 18 GB under Kani and "
+           "no loader harness could be made to terminate; the scalar-resolution half of the statement is decided under C08, which does not decide C07.",
     "C11": "stack exhaustion is a property of the machine-level execution: CBMC/Kani has no stack-size model, recursion depth 10^5 is beyond any "
            "unwinding bound and recursive drop glue cannot be instrumented; a bounded-depth proxy would alarm on a correct depth-limited implementation. "
            "The only solver-decidable fragment (flow-level counter never wraps) is checked under C01.",
@@ -94,7 +100,7 @@ PROPERTIES["C08"] = {
 }
 
 
-STATES0 = ["stream_start", "implicit_document_start", "document_start", "document_content", "document_end"]
+STATES0 = ["stream_start", "document_content", "document_end"]
 STATES_D = ["block_node", "block_sequence_first_entry", "block_sequence_entry", "indentless_sequence_entry",
             "block_mapping_first_key", "block_mapping_key", "block_mapping_value", "flow_sequence_first_entry",
             "flow_sequence_entry", "flow_sequence_entry_mapping_key", "flow_sequence_entry_mapping_value",
@@ -148,6 +154,279 @@ PROPERTIES["C10"] = {
                     "skip_ws_to_eol is called with SkipTabs::Yes or SkipTabs::No only (StrInput asserts this)"],
     "outside": "buffers longer than 8 bytes; BufferedInput internals; scanner paths that depend on buffer capacity",
 }
+
+WSA = "alphabet {sp, tab, LF, CR, '#', 'a', ':'}"
+POS_FUNCS = ["Scanner::skip_blank", "Scanner::skip_non_blank", "Scanner::skip_nl", "Scanner::skip_linebreak", "Scanner::skip_break", "Scanner::read_break",
+             "Scanner::skip_to_next_token", "Scanner::skip_yaml_whitespace", "Scanner::skip_ws_to_eol", "StrInput::skip_ws_to_eol", "StrInput::skip_while_non_breakz"]
+SCAN_UNIT_HARNESSES = {
+    "c12_skip_linebreak": "texts of 0..3 chars over " + WSA + ", arbitrary start mark",
+    "c12_skip_break_read_break": "texts of 1..3 chars starting with a break, arbitrary start mark, skip_break and read_break",
+    "c12_skip_to_next_token_top_2": "texts 0..2 over " + WSA + ", top-level context, leading_whitespace arbitrary",
+    "c12_skip_to_next_token_block_2": "texts 0..2 over " + WSA + ", indented block context (indent 2)",
+    "c12_skip_to_next_token_flow_2": "texts 0..2 over " + WSA + ", flow context",
+    "c12_skip_yaml_whitespace_top_2": "texts 0..2 over " + WSA + ", top-level context",
+}
+SCAN_UNIT_T = {
+    "c12_skip_to_next_token_top_3": "texts 0..3 over " + WSA + ", top-level context, leading_whitespace arbitrary",
+    "c12_skip_to_next_token_block_3": "texts 0..3 over " + WSA + ", indented block context (indent 2)",
+    "c12_skip_to_next_token_flow_3": "texts 0..3 over " + WSA + ", flow context",
+    "c12_skip_yaml_whitespace_top_3": "texts 0..3 over " + WSA + ", top-level context",
+}
+PROPERTIES["C12"] = {
+    "level": "model_checking",
+    "level_text": "Bounded model checking of the position bookkeeping of the real scanner units against reference position arithmetic (count characters "
+                  "and line breaks of the consumed text; CR LF = one break): for every text within the bound and an arbitrary start mark, the mark after "
+                  "each helper equals the reference position of exactly the consumed input; counts returned by StrInput bulk operations are character "
+                  "(not byte) counts on every valid UTF-8 buffer; every event span produced by one parser step starts no later than it ends.",
+    "level_note": "Decided per unit (position helpers, whitespace/comment skipping, escape decoding, StrInput bulk counts, parser step spans); the "
+                  "scalar-scanning functions (plain/quoted/block scalars, tags, anchors, directives) are outside the claim - they build heap strings and "
+                  "did not finish under Kani (DESIGN.md section 1). Whole-document statement follows only by composition (argued).",
+    "harnesses": [H(k, "parser.scanner", POS_FUNCS, v) for k, v in SCAN_UNIT_HARNESSES.items()]
+                 + [H(k, "parser.scanner", POS_FUNCS, v, tiers=T, timeout={"thorough": 3000}) for k, v in SCAN_UNIT_T.items()]
+                 + [H("c12_skip_to_next_token_top_4", "parser.scanner", POS_FUNCS, "texts 0..4 over " + WSA + ", top-level", tiers=T, timeout={"thorough": 3000}),
+                    H("c12_skip_to_next_token_block_4", "parser.scanner", POS_FUNCS, "texts 0..4 over " + WSA + ", block context", tiers=T, timeout={"thorough": 3000}),
+                    H("c10_skip_ws_to_eol", "parser.input_str", ["StrInput::skip_ws_to_eol"], UTF8 % 3 + " (count is a character count)"),
+                    H("c10_skip_while_non_breakz", "parser.input_str", ["StrInput::skip_while_non_breakz"], UTF8 % 5 + " (count is a character count)"),
+                    H("c10_fetch_while_is_alpha", "parser.input_str", ["StrInput::fetch_while_is_alpha"], UTF8 % 4 + " (count is a character count)")],
+    "assumptions": ["ASCII texts for scanner units (multi-byte counts are covered at the StrInput level)", "contexts are constructed by setting scanner fields (top level / indent 2 / flow level 1)"],
+    "outside": "scan_plain_scalar, scan_flow_scalar, scan_block_scalar, scan_tag*, scan_anchor, scan_directive*, fetch_* token spans; error Display; with_span of marked nodes",
+}
+PROPERTIES["C14"] = {
+    "level": "model_checking",
+    "level_text": "Bounded model checking of the break-handling units: skip_linebreak/skip_break/read_break consume LF, CR LF and lone CR as exactly one "
+                  "break (one line, column 0, reported as a line feed) for every following text within the bound; differential check of the whitespace "
+                  "units: for EVERY CR-free text X within the bound and both substitutions (LF->CRLF, LF->CR) the unit ends with the same outcome at the "
+                  "same line/column before the same character and with the same simple-key state.",
+    "level_note": "Scalar-scanning functions (break normalisation inside plain/quoted/block scalars) are outside the claim (not finishing under Kani); "
+                  "whole-document statement follows only by composition (argued).",
+    "harnesses": [H("c12_skip_linebreak", "parser.scanner", POS_FUNCS, SCAN_UNIT_HARNESSES["c12_skip_linebreak"]),
+                  H("c12_skip_break_read_break", "parser.scanner", POS_FUNCS, SCAN_UNIT_HARNESSES["c12_skip_break_read_break"])]
+                 + [H(k, "parser.scanner", POS_FUNCS, "every CR-free text 0..2 over {sp, tab, LF, '#', 'a', ':'} x {LF->CRLF, LF->CR}")
+                    for k in ["c14_skip_to_next_token_top_2", "c14_skip_to_next_token_block_2", "c14_skip_yaml_whitespace_top_2", "c14_skip_yaml_whitespace_flow_2"]]
+                 + [H(k, "parser.scanner", POS_FUNCS, "every CR-free text 0..3 over {sp, tab, LF, '#', 'a', ':'} x {LF->CRLF, LF->CR}", tiers=T, timeout={"thorough": 3400})
+                    for k in ["c14_skip_to_next_token_top_3", "c14_skip_to_next_token_block_3", "c14_skip_yaml_whitespace_top_3", "c14_skip_yaml_whitespace_flow_3"]],
+    "assumptions": ["units are run from constructed contexts (top level / indent 2 / flow level 1)"],
+    "outside": "break normalisation inside scalars (scan_flow_scalar, scan_plain_scalar, scan_block_scalar), directives, whole documents",
+}
+PROPERTIES["C04"] = {
+    "level": "model_checking",
+    "level_text": "Bounded model checking of the real escape decoder (Scanner::resolve_flow_scalar_escape_sequence) against the YAML 1.2 escape table and "
+                  "hexadecimal arithmetic: for a backslash followed by ANY ASCII character and any 0..8 following printable characters, the decoded code "
+                  "point is the table's / the arithmetic value, Err exactly for unknown escapes, truncated or non-hex digits and non-scalar values; and the "
+                  "StrInput fast path of next_can_be_plain_scalar agrees with the default on every buffer.",
+    "level_note": "Only the escape table / hex decoding and the plain-scalar termination test are decided. Folding, quote doubling and plain-scalar "
+                  "scanning (scan_flow_scalar, consume_flow_scalar_non_whitespace_chars, scan_plain_scalar) build heap strings and did not finish under Kani; "
+                  "they are outside the claim.",
+    "harnesses": [H("c04_escape_sequences", "parser.scanner", ["Scanner::resolve_flow_scalar_escape_sequence", "char_traits::is_hex", "char_traits::as_hex", "Scanner::skip_n_non_blank"],
+                    "'\\' + any ASCII char 1..126 + up to 8 printable ASCII chars, total length 2..10, arbitrary start mark"),
+                  H("c10_next_can_be_plain_scalar", "parser.input_str", ["StrInput::next_can_be_plain_scalar", "Input::next_can_be_plain_scalar (default body)"], UTF8 % 4)],
+    "assumptions": ["escape text is ASCII"],
+    "outside": "line folding, quote doubling, escaped line breaks, plain scalar scanning, non-ASCII pass-through",
+}
+
+KEYA = "key alphabet {a b 1 0 x ~ . - t r u e}"
+PROPERTIES["C20"] = {
+    "level": "model_checking",
+    "level_text": "Bounded model checking of the two mechanisms that make &str lookups agree with node equality and hashing, on the real code: (1) hash-trace "
+                  "equality - for EVERY key of up to 4 chars the byte stream that hash_str_as_yaml_string feeds a hasher equals the stream produced by "
+                  "hashing the stored key node Value(String(k)), borrowed or owned, so the recomputed hash equals the stored one for every hasher; (2) "
+                  "predicate equivalence - for EVERY probe and every small candidate key node (9 variants) the lookup closure accepts the candidate iff "
+                  "the candidate equals the explicitly built string node iff it is a resolved string equal to the probe. For Yaml and YamlOwned.",
+    "level_note": "hashbrown/hashlink probing (raw_entry().from_hash) is trusted: given equal hashes and this predicate it returns the matching entry. Real "
+                  "mappings (Index panics, integer indexing vs get) are outside the claim: LinkedHashMap operations do not finish under Kani. The annotated "
+                  "node types build a real needle node and hash it with the same Hash impl (consistent by construction; not separately decided).",
+    "harnesses": [
+        H("c20_hash_trace_yaml", "saphyr.yaml", ["saphyr::yaml::hash_str_as_yaml_string", "<Yaml as Hash>::hash (derived)", "<Scalar as Hash>::hash", "<Cow<str> as Hash>::hash"], "every key 0..4 chars over " + KEYA),
+        H("c20_predicate_yaml", "saphyr.yaml", ["Yaml::as_str", "<Yaml as PartialEq>::eq (derived)"], "probe 0..3 chars x candidate text 0..3 chars x 9 candidate variants"),
+        H("c20_hash_trace_yaml_owned", "saphyr.yaml_owned", ["saphyr::yaml_owned::hash_str_as_yaml_string", "<YamlOwned as Hash>::hash (derived)", "<ScalarOwned as Hash>::hash"], "every key 0..4 chars over " + KEYA),
+        H("c20_predicate_yaml_owned", "saphyr.yaml_owned", ["YamlOwned::as_str", "<YamlOwned as PartialEq>::eq (derived)"], "probe 0..3 chars x candidate text 0..3 chars x 9 candidate variants"),
+    ],
+    "assumptions": ["ASCII keys", "hash tables locate an entry given an equal hash and a true predicate (hashbrown trusted)"],
+    "outside": "Index/IndexMut panic conditions, integer indexing, lookups on real LinkedHashMap instances, annotated node types",
+}
+
+DOCSTART = {
+    "c16_docstart_stream_end": "[StreamEnd]", "c16_docstart_skip_doc_ends": "[DocumentEnd, DocumentEnd, StreamEnd]", "c16_docstart_implicit_scalar": "[Scalar]",
+    "c16_docstart_explicit": "[DocumentStart, Scalar]", "c16_docstart_explicit_required_missing": "[Scalar] where '---' is required",
+    "c16_docstart_version": "[%YAML, ---]", "c16_docstart_two_versions": "[%YAML, %YAML, ---]", "c16_docstart_two_tags": "[%TAG h1, %TAG h2, ---]",
+    "c16_docstart_tag_then_version": "[%TAG h, %YAML, ---]", "c16_docstart_three_tags": "[%TAG h1, %TAG h2, %TAG h3, ---]",
+    "c16_docstart_tag_without_docstart": "[%TAG h, Scalar]", "c16_docstart_directive_then_eof": "[%YAML] then scanner error",
+}
+def DS(name):
+    return H(name, "lm.parser", ["Parser::document_start", "Parser::explicit_document_start", "Parser::parser_process_directives"],
+             "token template " + DOCSTART[name] + " x every handle/prefix choice (4 handles) x keep_tags on/off x handle table of an earlier document",
+             stubs=[LM_STUB, INJ])
+PROPERTIES["C02"]["harnesses"] += [DS(n) for n in ["c16_docstart_stream_end", "c16_docstart_skip_doc_ends", "c16_docstart_implicit_scalar", "c16_docstart_explicit"]]
+RESOLVE = {"c16_resolve_no_directives": "no directive", "c16_resolve_all_directives": "!a! !b! !! ! all bound", "c16_resolve_named_only": "!a! !b! bound, anchor before tag",
+           "c16_resolve_secondary_and_primary": "!! and ! rebound", "c16_resolve_only_b": "only !b! bound"}
+PROPERTIES["C16"] = {
+    "level": "model_checking",
+    "level_text": "Bounded model checking of the real directive processing and tag resolution (Parser::parser_process_directives, resolve_tag, document_end) "
+                  "over injected token templates: for every directive prologue shape of up to 3 directives, EVERY choice of handles/prefixes from the pool, "
+                  "keep_tags on/off and a handle table left by an earlier document, the table in force after '---' equals the reference (all %TAG of the "
+                  "document together, duplicates rejected, repeated %YAML rejected, directives without '---' rejected); for every tag spelling "
+                  "(!!s !a!s !b!s !c!s !s !<v> !) under 5 handle tables the reported tag is prefix-of-handle + suffix, undeclared named handles are errors.",
+    "level_note": "Token KIND sequences are concrete templates (a symbolic kind sequence makes the directive loops explode); payloads, options and tables are "
+                  "symbolic. Tag scanning (scan_tag*, percent-decoding in scan_uri_escapes) builds heap strings and is outside the claim. " + LM_STUB,
+    "prepare": ["gen_parser"],
+    "harnesses": [DS(n) for n in DOCSTART] + [H(n, "lm.parser", ["Parser::resolve_tag", "Parser::parse_node"], "tag spelling symbolic over 7 x table: " + d, stubs=[LM_STUB, INJ]) for n, d in RESOLVE.items()]
+                 + [H("c15_docend_explicit_then_doc", "lm.parser", ["Parser::document_end"], "[..., DocumentEnd, Scalar] x keep_tags", stubs=[LM_STUB, INJ])],
+    "assumptions": [LM_STUB, INJ, "handles/prefixes from a pool of 4"],
+    "outside": "scan_tag, scan_tag_handle, scan_tag_shorthand_suffix, scan_verbatim_tag, scan_tag_prefix, scan_uri_escapes (tag text scanning and percent-decoding)",
+}
+DOCEND = ["c15_docend_explicit_then_doc", "c15_docend_explicit_then_directive", "c15_docend_explicit_then_eof", "c15_docend_implicit_then_docstart", "c15_docend_implicit_then_eof"]
+PROPERTIES["C15"] = {
+    "level": "model_checking",
+    "level_text": "Bounded model checking of the parser-side reset at document boundaries on the real code: after the DocumentEnd step (explicit '...' or "
+                  "implicit) the state stack is empty, the next-document state is the initial one for that boundary kind, %TAG handles are dropped unless "
+                  "keep_tags, and the next document's directive prologue yields exactly its own table (no handle of the previous document unless keep_tags) "
+                  "- for every template/handle/option choice. With the inductive grammar step of C02 (parser behaviour depends only on state, stack, tables) "
+                  "this gives independence of documents at the parser level.",
+    "level_note": "Scanner-side reset (indentation, simple keys, flow level at '---'/'...') and anchor-table clearing in load() are outside the claim: "
+                  "fetch_document_indicator/unroll_indent and the recursive load() did not finish under Kani. " + LM_STUB,
+    "prepare": ["gen_parser"],
+    "harnesses": [H(n, "lm.parser", ["Parser::document_end"], "token template x keep_tags on/off, table with 2 handles", stubs=[LM_STUB, INJ]) for n in DOCEND]
+                 + [DS(n) for n in ["c16_docstart_two_tags", "c16_docstart_implicit_scalar", "c16_docstart_explicit"]],
+    "assumptions": [LM_STUB, INJ],
+    "outside": "scanner state at document markers; Parser::load anchor clearing; concatenation statement for whole streams (argued from the step properties)",
+}
+
+PEEK_FUNCS = ["Parser::peek", "Parser::next_event", "Parser::next_event_impl", "Parser::parse"]
+PROPERTIES["C17"] = {
+    "level": "model_checking",
+    "level_text": "Bounded model checking of the real peek/next wrappers over the parser step: from the same ARBITRARY well-formed configuration (3 "
+                  "representative states, arbitrary stack entries/anchor table, all token sequences <= 3) a parser doing peek, peek, next and a parser "
+                  "doing next deliver the same event/span/error, the peeks consume no token, and both end in the same configuration; from the "
+                  "end-of-stream state EVERY history of four peek/next calls shows StreamEnd until next has delivered it and nothing afterwards.",
+    "level_note": "The push interface (Parser::load, load_document, load_node recursion, per-document anchor clearing) is outside the claim: it did not finish "
+                  "under Kani. Longer call histories follow by induction on the step (argued). " + LM_STUB,
+    "prepare": ["gen_parser"],
+    "harnesses": [H("c17_peek_next_block_node", "lm.parser", PEEK_FUNCS, "state BlockNode, stack DocumentEnd + 2 arbitrary entries, all token sequences <= 2", stubs=[LM_STUB, INJ]),
+                  H("c17_peek_next_flow_sequence_entry", "lm.parser", PEEK_FUNCS, "state FlowSequenceEntry, stack + 2 entries, all token sequences <= 3", stubs=[LM_STUB, INJ]),
+                  H("c17_peek_next_block_mapping_value", "lm.parser", PEEK_FUNCS, "state BlockMappingValue, stack DocumentEnd, all token sequences <= 3", stubs=[LM_STUB, INJ]),
+                  H("c17_fuse_after_stream_end", "lm.parser", PEEK_FUNCS, "token template [StreamEnd], both document-start states, every history in {peek,next}^4", stubs=[LM_STUB, INJ])],
+    "assumptions": [LM_STUB, INJ],
+    "outside": "Parser::load / load_document / load_node / load_sequence / load_mapping (push interface) and its anchor-table lifetime",
+}
+C06_STEPS = ["c02_step_flow_sequence_entry_d2", "c02_step_flow_mapping_key_d2", "c02_step_block_node_d2", "c02_step_block_sequence_entry_d2", "c02_step_block_mapping_key_d2"]
+PROPERTIES["C06"] = {
+    "level": "model_checking",
+    "level_text": "Bounded model checking of the rejection obligations that sit in units within reach, on the real code: unknown / truncated / non-scalar "
+                  "escapes are errors for every text after the backslash (escape decoder); a tab used as block indentation followed by content is an "
+                  "error and tabs elsewhere are not (skip_to_next_token, all texts <= 3 in block/top/flow contexts); repeated %YAML, a %TAG handle declared "
+                  "twice, directives without '---', a directive after an implicit document end, an alias without anchor and an undeclared named handle "
+                  "are errors for every payload choice (parser templates); and in the parser steps for flow sequences/mappings and block collections every "
+                  "token sequence that lacks the required ',' / ']' / '}' / '-' / key yields Err or an event the grammar still allows - never a silently "
+                  "ill-formed stream (the C02 monitor).",
+    "level_note": "Damage classes that need scanner functions beyond reach (unterminated quoted scalar, misaligned '-'/'?', flow collection not indented, "
+                  "multi-line implicit key, 1024-character key, second root node, content after '...') are outside the claim. " + LM_STUB,
+    "prepare": ["gen_parser"],
+    "harnesses": [H("c04_escape_sequences", "parser.scanner", ["Scanner::resolve_flow_scalar_escape_sequence"], "backslash + any ASCII + up to 8 printable chars"),
+                  H("c12_skip_to_next_token_block_2", "parser.scanner", ["Scanner::skip_to_next_token"], SCAN_UNIT_HARNESSES["c12_skip_to_next_token_block_2"]),
+                  DS("c16_docstart_two_versions"), DS("c16_docstart_tag_without_docstart"), DS("c16_docstart_explicit_required_missing"),
+                  DS("c16_docstart_directive_then_eof"), DS("c16_docstart_two_tags"),
+                  H("c15_docend_explicit_then_directive", "lm.parser", ["Parser::document_end"], "[DocumentEnd, %TAG] and keep_tags", stubs=[LM_STUB, INJ]),
+                  H("c15_docend_implicit_then_docstart", "lm.parser", ["Parser::document_end"], "[DocumentStart, Scalar]", stubs=[LM_STUB, INJ]),
+                  H("c16_resolve_only_b", "lm.parser", ["Parser::resolve_tag"], "7 tag spellings, only !b! bound", stubs=[LM_STUB, INJ]),
+                  H("c06_alias_without_anchor", "lm.parser", ["Parser::parse_node"], "token template [Alias(name)] x every name x anchor table {a, b}", stubs=[LM_STUB, INJ])]
+                 + [H(n, "lm.parser", PARSER_FUNCS, "parser step, see C02", stubs=[LM_STUB, INJ], tiers=T, timeout={"thorough": 1800}) for n in C06_STEPS],
+    "assumptions": [LM_STUB, INJ],
+    "outside": "unterminated quoted scalars / flow collections at end of input, misaligned block entries, flow collections not indented, multi-line or over-long implicit keys, second root node, content after '...' (scanner functions beyond reach)",
+}
+
+PROPERTIES["C09"] = {
+    "level": "model_checking",
+    "level_text": "Bounded model checking of the scalar-string half of the round trip on the real code: (1) the quoting decision covers the resolver - for "
+                  "EVERY string of up to 4 (thorough 5) characters over a 24-symbol alphabet of digits, signs, '.', '~', '_' and the letters of type-like "
+                  "words, need_quotes(s) == false implies Scalar::parse_from_cow(s) == String(s) (real need_quotes, real resolver); (2) escape_str writes, "
+                  "for EVERY valid UTF-8 string of up to 3 characters incl. all control characters, a one-line double-quoted scalar that a reference "
+                  "decoder reads back as the input, using only escapes of the YAML 1.2 table (which the real scanner decodes - C04 harness).",
+    "level_note": "Collection layout (emit_sequence/mapping/val, complex keys, compact mode), literal block emission, number formatting and re-scanning of "
+                  "plain strings in their syntactic position (indicator characters, ': ', ' #') are outside the claim: they need the scanner's scalar "
+                  "functions or float formatting, beyond reach. f64::from_str is a contract stub.",
+    "harnesses": [H("c09_unquoted_strings_resolve_as_strings_3", "saphyr.emitter", ["saphyr::emitter::need_quotes", "Scalar::parse_from_cow", "loader::parse_f64"], "every string 0..3 over the 24-symbol alphabet", stubs=[F64_STUB]),
+                  H("c09_unquoted_strings_resolve_as_strings_4", "saphyr.emitter", ["saphyr::emitter::need_quotes", "Scalar::parse_from_cow", "loader::parse_f64"], "every string 0..4 over the 24-symbol alphabet", stubs=[F64_STUB]),
+                  H("c09_unquoted_strings_resolve_as_strings_5", "saphyr.emitter", ["saphyr::emitter::need_quotes", "Scalar::parse_from_cow", "loader::parse_f64"], "every string 0..5 over the 24-symbol alphabet", stubs=[F64_STUB], tiers=T),
+                  H("c09_escape_str_roundtrip_1", "saphyr.emitter", ["saphyr::emitter::escape_str"], "every character below U+0800 (all ASCII incl. controls, 2-byte characters)"),
+                  H("c09_escape_str_roundtrip_2", "saphyr.emitter", ["saphyr::emitter::escape_str"], "every valid UTF-8 string of 0..2 characters below U+0800"),
+                  H("c09_escape_str_roundtrip_3", "saphyr.emitter", ["saphyr::emitter::escape_str"], "every valid UTF-8 string of 0..3 characters below U+0800", tiers=T, timeout={"thorough": 3000})],
+    "assumptions": [F64_STUB],
+    "outside": "collection layout, literal blocks, numbers, plain strings containing indicator characters in position, idempotence of a second emit",
+}
+
+DEC_STUB = ("encoding_rs::Decoder::decode_to_string_without_replacement -> contract stub (reads <= remaining input, writes <= spare capacity, InputEmpty only "
+            "at end of input, OutputFull without progress only when fewer than 4 bytes are spare, Malformed(len>=1, after) with len+after <= bytes read >= 1)")
+PROPERTIES["C18"] = {
+    "level": "other",
+    "level_text": "Two solver-decided obligations on the real code. (1) Bounded model checking of the encoding decision (Encoding::for_bom + "
+                  "detect_utf16_endianness, real code incl. encoding_rs::Encoding::for_bom): for EVERY text that starts with an ASCII character followed by "
+                  "at most one more arbitrary BMP character, in each of the 6 encodings, the selected encoding is the one the text is in; inputs of 0-3 "
+                  "arbitrary bytes never index out of bounds and inputs shorter than 2 bytes fall back to UTF-8. (2) Termination of decode_loop for every "
+                  "input of up to 5 bytes, every trap and EVERY decoder behaviour allowed by the documented decoder contract (nondeterministic contract "
+                  "stub): the loop is left within 2N+3 iterations (unwinding assertion derived from the progress argument) and the error-context slicing "
+                  "never panics. A non-termination verdict is confirmed natively by running the real decoders under a watchdog.",
+    "level_note": "Level 'other' because the decoder is a contract stub, not the real encoding_rs code (its UTF-16/UTF-8 fast paths did not finish under Kani "
+                  "for 4 symbolic bytes); equality of the decoded text with the original is encoding_rs's correctness and is trusted. " + DEC_STUB,
+    "harnesses": [H("c18_selects_encoding_used", "saphyr.encoding", ["saphyr::encoding::detect_utf16_endianness", "encoding_rs::Encoding::for_bom", "YamlDecoder::decode (selection lines)"],
+                    "first char ASCII 1..127, optional second char any BMP scalar except NUL/BOM, 6 encodings"),
+                  H("c18_detect_short_inputs", "saphyr.encoding", ["saphyr::encoding::detect_utf16_endianness"], "every input of 0..3 arbitrary bytes"),
+                  H("c18_decode_loop_terminates_3", "saphyr.encoding", ["saphyr::encoding::decode_loop"], "inputs 0..3 bytes x 5 traps x every contract-conforming decoder behaviour; <= 9 iterations",
+                    stubs=[DEC_STUB, "alloc::fmt::format -> empty string"], nonterm_loop="decode_loop", native_probe="c18_native_hang_probe"),
+                  H("c18_decode_loop_terminates_5", "saphyr.encoding", ["saphyr::encoding::decode_loop"], "inputs 0..5 bytes x 5 traps x every contract-conforming decoder behaviour; <= 13 iterations",
+                    stubs=[DEC_STUB, "alloc::fmt::format -> empty string"], nonterm_loop="decode_loop", native_probe="c18_native_hang_probe", tiers=T)],
+    "assumptions": [DEC_STUB, "NUL does not occur in the text (YAML streams cannot contain it; the detection scheme presupposes it)",
+                    "decoded text equals the original for each encoding (encoding_rs correctness trusted)"],
+    "outside": "equality of decoded documents; texts whose second character is astral; real decoder code paths",
+}
+
+PROPERTIES["C19"] = {
+    "level": "model_checking",
+    "level_text": "Bounded model checking, on the real code and through the public API, of the parts of the statement that do not need a hash map: owned and "
+                  "borrowed scalars resolve identically for EVERY text of up to 2 chars x 5 styles x {no tag, !!int, !!str}; parse_representation and "
+                  "parse_representation_recursive leave every already-resolved node (integer, string, null, alias) untouched and BadValue as BadValue, "
+                  "resolve a Representation to the value the eager loader computes, and keep a sequence while resolving its items; MarkedYaml equality "
+                  "and hashing depend on the data only (hash-trace equality under arbitrary spans); Scalar::into_owned/as_scalar round trip (C08 harness).",
+    "level_note": "Structural identity of the four node types for whole documents, and deferred-vs-eager equality for mappings, go through LinkedHashMap / the "
+                  "loader and are outside the claim (not finishing under Kani). f64::from_str is a contract stub.",
+    "harnesses": [H("c19_owned_and_borrowed_resolve_identically", "ext.c19", ["ScalarOwned::parse_from_cow_and_metadata", "Scalar::parse_from_cow_and_metadata", "Scalar::into_owned"], "texts 0..2 over {1 0 x . - ~ t n a e} x 5 styles x 3 tag choices", stubs=[F64_STUB]),
+                  H("c19_parse_representation_yaml", "ext.c19", ["Yaml::parse_representation", "Yaml::parse_representation_recursive", "Yaml::take"], "6 node variants x texts 0..2 x 5 styles x any i64 x {plain, recursive}", stubs=[F64_STUB]),
+                  H("c19_parse_representation_sequence", "ext.c19", ["Yaml::parse_representation_recursive"], "sequence [Representation(text 0..2, double-quoted), Value(Integer(any))]", stubs=[F64_STUB]),
+                  H("c19_marked_eq_hash_ignore_span", "ext.c19", ["<MarkedYaml as PartialEq>::eq", "<MarkedYaml as Hash>::hash", "<YamlData as Hash>::hash (derived)"], "4 data variants x arbitrary payloads x arbitrary spans"),
+                  H("c08_owned_3", "ext.c08", ["Scalar::into_owned", "ScalarOwned::as_scalar"], "texts 0..3; into_owned/as_scalar round trip", stubs=[F64_STUB], tiers=T)],
+    "assumptions": [F64_STUB],
+    "outside": "four node types on whole documents; early_parse(false) + resolve == eager for documents with mappings; MarkedYamlOwned/YamlOwned variants of parse_representation (same macro body)",
+}
+
+C01_STEPS_Q = ["c02_step_block_node_d0", "c02_step_block_mapping_value_d0", "c02_step_flow_sequence_entry_mapping_key_d0", "c02_step_indentless_sequence_entry_d0"]
+C01_STEPS_T = [x + "_d0" for x in STATES_D if x + "_d0" not in C01_STEPS_Q]
+PROPERTIES["C01"] = {
+    "level": "model_checking",
+    "level_text": "Bounded model checking of the panic sites and loops named by the property, unit by unit, on the real code: every required StrInput method "
+                  "after every history of 3 skip/read/peek calls on every valid UTF-8 buffer (no panic, never inside a character); the StrInput fast paths "
+                  "(fetch_while_is_alpha slicing, next_can_be_plain_scalar byte indexing) on every buffer; block-scalar indentation skipping through the "
+                  "16-slot BufferedInput for every indentation/space-run 0..19 (no ring overflow, no peek beyond the look-ahead); the flow-level counter "
+                  "from every level (error at 255, never wraps); whitespace/comment skipping on all texts <= 2-3 (terminates within the unwinding bound); "
+                  "and ONE parser step from an arbitrary well-formed configuration over all token sequences for every state (no pop_state/fetch_token/"
+                  "unreachable panic; by induction no panic for token streams of any length - see C02). Unwinding assertions give termination within bounds.",
+    "level_note": "The scanner's scalar/tag/directive functions and fetch_* (progress obligation, linear work bound), the push interface and the loaders are "
+                  "outside the claim (not finishing under Kani). " + LM_STUB,
+    "prepare": ["gen_parser"],
+    "harnesses": [H("c01_strinput_required_methods_no_panic", "parser.input_str", ["StrInput::skip", "StrInput::skip_n", "StrInput::raw_read_ch", "StrInput::raw_read_non_breakz_ch", "StrInput::peek", "StrInput::peek_nth"], "valid UTF-8 buffers <= 4 chars / 8 bytes x every history of 3 calls"),
+                  H("c10_fetch_while_is_alpha", "parser.input_str", ["StrInput::fetch_while_is_alpha"], UTF8 % 4),
+                  H("c10_next_can_be_plain_scalar", "parser.input_str", ["StrInput::next_can_be_plain_scalar"], UTF8 % 4),
+                  H("c01_increase_flow_level", "parser.scanner", ["Scanner::increase_flow_level"], "every flow_level 0..=255"),
+                  H("c01_block_scalar_indent_buffered", "parser.scanner", ["Scanner::skip_block_scalar_indent", "BufferedInput::lookahead", "BufferedInput::peek", "BufferedInput::peek_nth", "Scanner::read_break", "Scanner::skip_break"],
+                    "indent 0..=19 x 0..=19 spaces x every tail of 0..3 chars over {sp, LF, CR, a}", timeout={"quick": 900, "thorough": 1800}),
+                  H("c12_skip_to_next_token_top_2", "parser.scanner", ["Scanner::skip_to_next_token"], SCAN_UNIT_HARNESSES["c12_skip_to_next_token_top_2"])]
+                 + [H(n, "lm.parser", PARSER_FUNCS, "parser step from an arbitrary configuration, see C02", stubs=[LM_STUB, INJ], timeout={"quick": 900, "thorough": 1800}) for n in C01_STEPS_Q]
+                 + [H(n, "lm.parser", PARSER_FUNCS, "parser step from an arbitrary configuration, see C02", stubs=[LM_STUB, INJ], tiers=T, timeout={"thorough": 1800}) for n in C01_STEPS_T],
+    "assumptions": [LM_STUB, INJ],
+    "outside": "scan_* / fetch_* scanner functions (progress and linear-work obligations), Parser::load recursion, loaders, custom inputs with other buffer sizes",
+}
+# C02 quick = document-level + depth-2 variants; depth-0 variants are run in C02 thorough (and partly in C01 quick)
+for h in PROPERTIES["C02"]["harnesses"]:
+    if h["name"].endswith("_d0"):
+        h["tiers"] = T
 
 
 def run_prepare(step, root, work, log):
